@@ -18,7 +18,7 @@ RULE = (
     "(remove_completed_machine_nodes / job_nodes) x optional filter "
     "composition x whether an IsCompletedObserver already exists x optionally a composite over the subscribed feature observers whose matrices the caller overwrites in place after every dispatch x optionally (disjunctive builder) job nodes and a global node added from the public building blocks x choice "
     "sequence (among available operations); updater attached before the first "
-    "dispatch; optionally 1-3 resets, the checks continuing in every following episode; optionally the dispatcher (updater included) is deep-copied at a generated step, the original played on, and the checks continue on the copy and its graph. Oracle after every "
+    "dispatch or after 1-6 dispatches (the completion clause is then asserted when every job and machine still had an operation to schedule at that moment); optionally 1-3 resets, the checks continuing in every following episode; optionally the dispatcher (updater included) is deep-copied at a generated step, the original played on, and the checks continue on the copy and its graph. Oracle after every "
     "dispatch with the independent model's scheduled / completed sets: "
     "completed ops subseteq removed op nodes subseteq scheduled ops; a machine "
     "(job) node is removed only if every operation eligible on it (of it) is "
@@ -139,6 +139,17 @@ def check_case(case, ctx):
         x = inst["machines"][j][p][0]
         d.dispatch(instance.jobs[j][p], x)
         pre_model.apply(j, x)
+    # an updater attached mid-run still owes the completion clause when, at that
+    # moment, every job and every machine has an operation yet to be scheduled
+    # (it never sees jobs / machines that were finished before)
+    left_at_attach = pre_model.unscheduled()
+    attach_sees_all = (
+        {jj for (jj, _pp) in left_at_attach} == set(range(len(inst["machines"])))
+        and {x for (jj, pp) in left_at_attach for x in inst["machines"][jj][pp]}
+        == {x for row in inst["machines"] for ms in row for x in ms}
+    )
+    if attach_after and attach_sees_all:
+        ctx.label("attached_midrun_all_jobs_and_machines_pending")
     upd = ResidualGraphUpdater(
         d,
         graph,
@@ -247,8 +258,9 @@ def check_case(case, ctx):
             ctx.count("steps")
         # (an updater attached while the episode is under way never sees the
         # jobs / machines that were finished before - also on the unchanged
-        # tree - so the completion clause presupposes attachment from the start)
-        if m.complete() and flags == [True, True] and all_used and not (ep == 0 and attach_after):
+        # tree - so the completion clause presupposes attachment from the start,
+        # or at a moment when every job and machine still had work to schedule)
+        if m.complete() and flags == [True, True] and all_used and (not (ep == 0 and attach_after) or attach_sees_all):
             g = upd.job_shop_graph
             ctx.check(
                 all(g.removed_nodes) and g.graph.number_of_nodes() == 0,
